@@ -70,7 +70,21 @@ def run(ctx):
                 if isinstance(arg, ast.GeneratorExp):
                     for g in arg.generators:
                         loopvars |= {x.id for x in ast.walk(g.target) if isinstance(x, ast.Name)}
-                dependent_first = (a in params or a in ('item', 'file_item')) and (b in loopvars or b.startswith('child') or b not in params)
+                # names that stand for a dependency: generator variables of the edge argument, loop variables over successors /
+                # created dependencies, and everything computed from those
+                succ = set(loopvars)
+                for ln in ast.walk(f.node):
+                    if isinstance(ln, ast.For) and ('successors(' in ast.unparse(ln.iter) or 'dependencies' in ast.unparse(ln.iter)):
+                        succ |= {x.id for x in ast.walk(ln.target) if isinstance(x, ast.Name)}
+                grew = True
+                while grew:
+                    grew = False
+                    for an in ast.walk(f.node):
+                        if isinstance(an, ast.Assign) and isinstance(an.targets[0], ast.Name) and an.targets[0].id not in succ \
+                                and any(isinstance(x, ast.Name) and x.id in succ for x in ast.walk(an.value)):
+                            succ.add(an.targets[0].id)
+                            grew = True
+                dependent_first = a not in succ and b in succ
                 if dependent_first and a != b:
                     ctx.judge('R1', inst, facts={'where': where, 'edge': f'({a}, {b})'})
                 else:
@@ -122,16 +136,17 @@ def run(ctx):
     if len(plain) != 1:
         raise AnalysisError('process_transformation: the non-file-graph SFilter not identified')
     k = plain[0]
-    for key, want in (('item_filter', 'item_filter'), ('exclude_ignored', 'not transformation.process_ignored_items')):
+    ifn = (X.names_assigned_from(pt.node, 'transformation.item_filter') or ['item_filter'])[0]
+    for key, want in (('item_filter', ifn), ('exclude_ignored', 'not transformation.process_ignored_items')):
         (ctx.judge('R2', f'SFilter(plain):{key}') if k.get(key) == want else
          ctx.violation('R2', f'SFilter(plain):{key}', pt.where, f'{key}={k.get(key)!r}, expected {want!r}'))
-    ifl = [n for n in ast.walk(pt.node) if isinstance(n, ast.Assign) and ast.unparse(n.targets[0]) == 'item_filter']
+    ifl = [n for n in ast.walk(pt.node) if isinstance(n, ast.Assign) and ast.unparse(n.targets[0]) == ifn]
     (ctx.judge('R2', 'item_filter source') if ifl and 'transformation.item_filter' in ast.unparse(ifl[0].value) else
      ctx.violation('R2', 'item_filter source', pt.where, 'item_filter is not taken from transformation.item_filter'))
     afg = [n for n in ast.walk(pt.node) if isinstance(n, ast.Call) and X.call_name_of(n) == 'as_filegraph']
     if afg:
         kw = {k.arg: ast.unparse(k.value) for k in afg[0].keywords}
-        ok = kw.get('item_filter') == 'item_filter' and kw.get('exclude_ignored') == 'not transformation.process_ignored_items'
+        ok = kw.get('item_filter') == ifn and kw.get('exclude_ignored') == 'not transformation.process_ignored_items'
         (ctx.judge('R2', 'as_filegraph wiring', facts=kw) if ok else
          ctx.violation('R2', 'as_filegraph wiring', pt.where, f'as_filegraph called with {kw}'))
     ap = [n for n in ast.walk(pt.node) if isinstance(n, ast.Call) and X.dotted_attr(n.func) == 'transformation.apply']
@@ -139,8 +154,9 @@ def run(ctx):
         raise AnalysisError('process_transformation: transformation.apply call not found')
     kw = {k.arg: ast.unparse(k.value) for k in ap[0].keywords if k.arg}
     loopvar = None
+    trn = set(X.names_assigned_from(pt.node, 'SFilter('))
     for n in ast.walk(pt.node):
-        if isinstance(n, ast.For) and ast.unparse(n.iter) == 'traversal':
+        if isinstance(n, ast.For) and ast.unparse(n.iter) in trn:
             loopvar = ast.unparse(n.target)
     if loopvar is None:
         raise AnalysisError('process_transformation: `for <item> in traversal` not found')
@@ -157,9 +173,13 @@ def run(ctx):
     wl = [n for n in nx_.node.body if isinstance(n, ast.While)]
     if len(wl) != 1:
         raise AnalysisError('SFilter.__next__: while loop not found')
-    A = {'E': 'isinstance(node, ExternalItem)', 'IE': 'self.include_external', 'S': 'issubclass(node_cls, self.item_filter)',
-         'XI': 'self.exclude_ignored', 'IG': 'node.is_ignored', 'MN': 'self.mode is None',
-         'MA': 'isinstance(node, (ExternalItem, TypeDefItem, InterfaceItem))', 'MM': 'node.mode == self.mode'}
+    # the locals of __next__: the node drawn from the iterator and the class it is filtered by
+    nd = next((n.target.id for n in ast.walk(wl[0].test) if isinstance(n, ast.NamedExpr)), None) or \
+        (X.names_assigned_from(nx_.node, 'next(self._iter)') or ['node'])[0]
+    nc = (X.names_assigned_from(nx_.node, f'type({nd})') or ['node_cls'])[0]
+    A = {'E': f'isinstance({nd}, ExternalItem)', 'IE': 'self.include_external', 'S': f'issubclass({nc}, self.item_filter)',
+         'XI': 'self.exclude_ignored', 'IG': f'{nd}.is_ignored', 'MN': 'self.mode is None',
+         'MA': f'isinstance({nd}, (ExternalItem, TypeDefItem, InterfaceItem))', 'MM': f'{nd}.mode == self.mode'}
 
     def g(env, k):
         return env.get(A[k], False)
@@ -190,9 +210,9 @@ def run(ctx):
     else:
         ctx.judge('R3', 'SFilter.__next__:selection', facts=facts)
     # the class used for the filter is origin_cls for externals
-    ncls = [n for n in ast.walk(nx_.node) if isinstance(n, ast.Assign) and ast.unparse(n.targets[0]) == 'node_cls']
+    ncls = [n for n in ast.walk(nx_.node) if isinstance(n, ast.Assign) and ast.unparse(n.targets[0]) == nc]
     vals = sorted(ast.unparse(n.value) for n in ncls)
-    (ctx.judge('R3', 'node_cls', facts={'values': vals}) if vals == ['node.origin_cls', 'type(node)'] else
+    (ctx.judge('R3', 'node_cls', facts={'values': vals}) if vals == sorted([f'{nd}.origin_cls', f'type({nd})']) else
      ctx.violation('R3', 'SFilter.__next__:node_cls', nx_.where, f'class used for filtering is {vals}'))
     # file-graph processing: the ignore rule is applied per definition item
     gdi = [n for n in pt.node.body if isinstance(n, ast.FunctionDef) and n.name == '_get_definition_items']
@@ -202,8 +222,11 @@ def run(ctx):
     if not lp:
         raise AnalysisError('_get_definition_items: loop not found')
     lv = ast.unparse(lp[0].target)
-    B = {'CI': 'child_items', 'IN': f'{lv} in sgraph_items', 'PI': 'transformation.process_ignored_items', 'IG': f'{lv}.is_ignored'}
-    is_add = lambda st: isinstance(st, ast.AugAssign) and ast.unparse(st.target) == 'items' and lv in ast.unparse(st.value)   # noqa: E731
+    gpar = [a.arg for a in gdi[0].args.args]
+    cin = (X.names_assigned_from(gdi[0], '_get_definition_items(') or ['child_items'])[0]
+    accn = next((ast.unparse(r.value) for r in reversed(gdi[0].body) if isinstance(r, ast.Return) and isinstance(r.value, ast.Name)), 'items')
+    B = {'CI': cin, 'IN': f'{lv} in {gpar[-1]}', 'PI': 'transformation.process_ignored_items', 'IG': f'{lv}.is_ignored'}
+    is_add = lambda st: isinstance(st, ast.AugAssign) and ast.unparse(st.target) == accn and lv in ast.unparse(st.value)   # noqa: E731
     rows = bad = 0
     example = None
     pre = [st for st in gdi[0].body if st is not lp[0] and not isinstance(st, (ast.Return,)) and st.lineno < lp[0].lineno]
@@ -226,7 +249,14 @@ def run(ctx):
     item = m.get_class('loki/batch/item.py', 'Item')
     tg = item.function('targets')
     src = ast.unparse(tg.node)
-    ok = X.has(src, 'self.disable') and X.has(src, 'self.block') and X.has(src, '_get_children(exclude=exclude)')
+    exn = [k for c in ast.walk(tg.node) if isinstance(c, ast.Call) and (X.dotted_attr(c.func) or '').endswith('_get_children')
+           for k in c.keywords if k.arg == 'exclude']
+    exsrc = ''
+    if exn and isinstance(exn[0].value, ast.Name):
+        exsrc = ' '.join(ast.unparse(n.value) for n in ast.walk(tg.node)
+                         if (isinstance(n, ast.Assign) and ast.unparse(n.targets[0]) == exn[0].value.id)
+                         or (isinstance(n, ast.AugAssign) and ast.unparse(n.target) == exn[0].value.id))
+    ok = bool(exn) and 'self.disable' in exsrc and 'self.block' in exsrc
     (ctx.judge('R3', 'Item.targets excludes disable+block') if ok else
      ctx.violation('R3', 'Item.targets', tg.where, 'targets no longer excludes both disabled and blocked dependencies'))
 
